@@ -59,6 +59,10 @@ def random_configs(tier, rng):
             for nrbe in ([1] if tier == 'quick' else [1, 2]):
                 out.append((dict(D=2, lmin=lmin, lmax=lmax, version=version, nrbe=nrbe, chain=rng.randint(0, 3), maxleaves=60,
                                  name='corner chain v%d (%d,%d) nrbe=%d' % (version, lmin, lmax, nrbe)), 7 if tier == 'quick' else 9))
+    # sweeps: one leaf per step, leaves visited in turn (rounds that only extend areas with a positive coarsening value)
+    for version, nrbe, stride in ([(0, 1, 1), (0, 2, 1), (1, 1, 1), (2, 1, 3)] if tier == 'quick' else [(v, n, st) for v in (0, 1, 2) for n in (1, 2) for st in (1, 3)]):
+        out.append((dict(D=2, lmin=1, lmax=2, version=version, nrbe=nrbe, sweep=stride, maxleaves=40, continue_via='resume',
+                         name='sweep v%d nrbe=%d stride=%d' % (version, nrbe, stride)), 10 if tier == 'quick' else 14))
     # single-dimension splitting: dense selections mixing splits and lmax-raising extends in one refinement round
     for i in range(8 if tier == 'quick' else 40):
         out.append((dict(D=rng.choice([2, 2, 3]), lmin=1, lmax=2, version=rng.choice([0, 0, 1, 2]), nrbe=1, single=True, dense=True, maxleaves=60,
